@@ -357,14 +357,25 @@ theorem whole_file_hashed (C : CheckParams) (hC : C.Good) (b : Bytes) : hashedPa
 
 /-- Witness: with a read limit, two executables that differ only beyond the limit are indistinguishable to `Check` — a
 payload appended past the limit runs unverified -/
-theorem read_limit_witness : hashedPart ⟨false, 4, true⟩ [1, 2, 3, 4, 5] = hashedPart ⟨false, 4, true⟩ [1, 2, 3, 4, 66, 77] := by decide
+theorem read_limit_witness : hashedPart ⟨false, 4, true, true⟩ [1, 2, 3, 4, 5] = hashedPart ⟨false, 4, true, true⟩ [1, 2, 3, 4, 66, 77] := by decide
 
 /-- **Every `Start` verifies**: a client that was refused is verified again when it is asked again — no attempt launches
 without the check. -/
 theorem every_attempt_verifies (C : CheckParams) (hC : C.Good) (attempt : Nat) : verifiesOnAttempt C attempt = true := by
-  simp [verifiesOnAttempt, hC.2]
+  simp [verifiesOnAttempt, hC.2.1]
 
 /-- Witness: a "checked once" flag set before the verdict lets the second `Start` through unverified -/
-theorem checked_once_witness : verifiesOnAttempt ⟨true, 0, false⟩ 1 = false := by decide
+theorem checked_once_witness : verifiesOnAttempt ⟨true, 0, false, true⟩ 1 = false := by decide
+
+/-- **The configured checksum is the one compared**: whatever rewriting a writer to `SecureConfig.Checksum` would apply,
+`Check` sees the caller's bytes. -/
+theorem given_checksum_compared (C : CheckParams) (hC : C.Good) (norm : Bytes → Bytes) (given : Bytes) :
+    comparedSum C norm given = given := by
+  simp [comparedSum, hC.2.2]
+
+/-- Witness: with a writer that decodes "text" forms (here: keeps every second byte), a checksum twice as long as the
+digest and different from it is compared as if it were the digest -/
+theorem normalised_checksum_witness :
+    comparedSum ⟨true, 0, true, false⟩ (fun b => (b.zipIdx.filter (fun x => x.2 % 2 == 1)).map (·.1)) [0, 7, 0, 9] = [7, 9] := by decide
 
 end GoPlugin.Props.C13
